@@ -51,7 +51,7 @@ def _gradeblock(draw, d, maxblades=None):
 @st.composite
 def _cases(draw, tier):
     dmax = 3 if tier == "quick" else 4
-    cfg = draw(S.configs(0, dmax, starts=(None, 0, 1), dweights=[0, 1, 2, 2, 3, 3, 3] + [4] * (dmax >= 4)))
+    cfg = draw(S.configs(0, dmax, custom=0.15, starts=(None, 0, 1), dweights=[0, 1, 2, 2, 3, 3, 3] + [4] * (dmax >= 4)))
     d = len(cfg["sig"])
     kind = draw(st.sampled_from(["bin", "bin", "un"]))
     op = draw(st.sampled_from(BIN if kind == "bin" else UN))
@@ -77,12 +77,19 @@ def cases(tier):
     return _cases(tier)
 
 
-def _run(alg, op, case, floaty):
+def _keys(ref, opnd):
+    """Complete grades in the algebra's own canonical order (for a custom basis: the order of the basis list)."""
+    return list(ref.keys_of_grades(opnd["grades"]))
+
+
+def _run(alg, op, case, floaty, ref):
     conv = (lambda v: float(frac(v))) if floaty else frac
-    x = alg.multivector(keys=tuple(case["a"]["keys"]), values=[conv(v) for v in case["a"]["vals"]]) if case["a"]["keys"] else alg.multivector()
+    ka = _keys(ref, case["a"])
+    x = alg.multivector(keys=tuple(ka), values=[conv(v) for v in case["a"]["vals"]]) if ka else alg.multivector()
     y = None
     if case["b"] is not None:
-        y = alg.multivector(keys=tuple(case["b"]["keys"]), values=[conv(v) for v in case["b"]["vals"]]) if case["b"]["keys"] else alg.multivector()
+        kb = _keys(ref, case["b"])
+        y = alg.multivector(keys=tuple(kb), values=[conv(v) for v in case["b"]["vals"]]) if kb else alg.multivector()
     try:
         r = getattr(x, op)(y) if y is not None else getattr(x, op)()
         return "ok", r
@@ -100,8 +107,8 @@ def evaluate(case):
         o["cse"] = opts["cse"]
     base_alg = kd.build_algebra(cfg)
     opt_alg = kd.build_algebra(cfg, **o)
-    s0, r0 = _run(base_alg, op, case, floaty)
-    s1, r1 = _run(opt_alg, op, case, floaty)
+    s0, r0 = _run(base_alg, op, case, floaty, ref)
+    s1, r1 = _run(opt_alg, op, case, floaty, ref)
     desc = f"{op} on grades {case['a']['grades']}" + (f" x {case['b']['grades']}" if case["b"] else "") + f" in signature {ref.sig} with options {o}"
     counters = {}
     labels = [f"op:{op}", f"d:{d}"]
@@ -115,7 +122,9 @@ def evaluate(case):
         labels.append("opt:nocse")
     if 0 in ref.sig:
         labels.append("sig:degenerate")
-    key = [cfg["sig"], cfg.get("start"), op, case["a"]["grades"], case["b"] and case["b"]["grades"], o]
+    key = [cfg["sig"], cfg.get("start"), cfg.get("basis"), op, case["a"]["grades"], case["b"] and case["b"]["grades"], o]
+    if cfg.get("basis"):
+        labels.append("basis:custom")
     if s0 == "exc":
         counters["default-raised:" + r0.split(":")[0]] = 1
         if s1 == "ok":
@@ -140,8 +149,8 @@ def evaluate(case):
     # anchor to the reference
     if op in EXACT:
         Rr = R(d, ref.T)
-        da = {k: frac(v) for k, v in zip(case["a"]["keys"], case["a"]["vals"])}
-        db = {k: frac(v) for k, v in zip(case["b"]["keys"], case["b"]["vals"])} if case["b"] else None
+        da = {k: frac(v) for k, v in zip(_keys(ref, case["a"]), case["a"]["vals"])}
+        db = {k: frac(v) for k, v in zip(_keys(ref, case["b"]), case["b"]["vals"])} if case["b"] else None
         try:
             exp = r_apply(Rr, op, da, db)
             ok, why = kd.elem_equal(e0, exp)
